@@ -95,11 +95,12 @@ def seed():
     _write("zip-cdh-crc32-flip", a, ("flip", c + 16, 2), "reject", "zip central-directory CRC-32, one bit", p)
     _write("zip-stored-data-flip", a, ("flip", a["zip"]["data"] + 1084 + 9, 5), "reject",
            "zip stored member data, one bit (CRC-32 verified after extraction)", p)
-    _write("zip-cdh-compsize-zero", a, ("sub", c + 20, 0), "reject",
-           "compressed size damaged towards 0: miniz's extract returns before its CRC compare when comp_size = 0; closed by "
-           "mz_zip_reader_init's `decomp_size && !comp_size` test", p)
     a = A.make_zip(rng, p, zipfile.ZIP_DEFLATED, streamed=True)
     c = a["zip"]["cdh"]
+    assert struct.unpack("<I", a["data"][c + 20:c + 24])[0] < 256
+    _write("zip-cdh-compsize-zero", a, ("sub", c + 20, 0), "reject",
+           "compressed size (< 256) damaged to 0 by one byte: miniz's extract returns the untouched malloc buffer before its "
+           "CRC compare when comp_size = 0; closed by mz_zip_reader_init's `decomp_size && !comp_size` test", p)
     _write("zip-dd-cdh-usize-flip", a, ("flip", c + 24, 0), "reject",
            "zip with data descriptors: central-directory uncompressed size, one bit", p)
     dd = a["fields"]["datadesc"][0]
